@@ -266,6 +266,11 @@ public:
 
     void WriteOpcodeValue(const void* value, size_t size) override
     {
+#ifdef MORFUSE_VERIF
+        if (verif::arena_trap && size > size_t(prog_end_ptr - code_pos)) {
+            verif::arena_trap(1, size, size_t(prog_end_ptr - code_pos));
+        }
+#endif
         assert(code_pos + size <= prog_end_ptr);
         memcpy(code_pos, value, size);
         code_pos += size;
